@@ -134,3 +134,26 @@ def run(ctx):
     ist = [c for c in cs if c[1] == "cfb::CompoundFile::<F>::is_stream"]
     ctx.check(len(ist) == 1 and ist[0][2][1] == "s:%r" % consts["DIGITAL_SIGNATURE_STREAM_NAME"]["lit"], R3, "has_digital_signature", "",
               "has_digital_signature tests %s" % [c[2] for c in ist], f.loc(), fn=f.name)
+
+
+def name4(ctx, rule="NAME-4"):
+    prog = ctx.prog
+    ctx.rule(rule, "write_stream obtains its stream from create_stream only (which truncates an existing stream), read_stream from open_stream only, remove_stream calls the "
+                   "container's remove_stream exactly once; each on the encoded name")
+    want = {"write_stream": ["create_stream"], "read_stream": ["open_stream"], "remove_stream": ["remove_stream"]}
+    for name, ops in want.items():
+        f = prog.fn(P + name)
+        S = Sym(prog, f)
+        got = sorted(n.rsplit("::", 1)[-1] for b, n, args, t in symcalls(prog, f, S)
+                     if re.match(r"cfb::CompoundFile::<F>::(open_stream|create_stream|create_new_stream|remove_stream|open_stream_with_path)", n))
+        ctx.check(got == ops, rule, name, str(got), "%s uses the container operations %s, expected exactly %s (an overwritten stream must be truncated; nothing else may be touched)" % (name, got, ops),
+                  f.loc(), fn=f.name, key="%s|%s" % (rule, name))
+    # StreamReader / StreamWriter forward to the wrapped stream
+    for imp, meth in (("StreamReader<F> as std::io::Read", "read"), ("StreamReader<F> as std::io::Seek", "seek"), ("StreamWriter<F> as std::io::Write", "write"),
+                      ("StreamWriter<F> as std::io::Write", "flush"), ("StreamWriter<F> as std::io::Seek", "seek")):
+        f = prog.fn("msi::<internal::stream::%s>::%s" % (imp, meth))
+        S = Sym(prog, f)
+        cs = symcalls(prog, f, S)
+        ok = len(cs) == 1 and cs[0][1].startswith("cfb::<internal::stream::Stream<F> as ") and cs[0][1].endswith("::" + meth) and cs[0][2][0] == "&*p1.stream" and cs[0][3]["dest"]["l"] == 0 \
+            and all(a == "p%d" % (i + 2) or a == "&*p%d" % (i + 2) for i, a in enumerate(cs[0][2][1:]))
+        ctx.check(ok, rule, "%s::%s forwards" % (imp.split("<")[0], meth), "", "%s::%s does not simply forward to the wrapped container stream: %s" % (imp.split("<")[0], meth, [(short(c[1]), c[2]) for c in cs]), f.loc(), fn=f.name)
